@@ -6,7 +6,7 @@ from_slice_bounds on the same read with the same (start, len); from_slice_bounds
 start > 0 from base start-1 in the low nibble, right flank ⇔ start+len < read length from base start+len in the high
 nibble, none at a read end); Vmer::from_slice writes every base; plus the minimizer scan itself (C07's abstract scan and
 order tables: the same p-mer wins in every k-mer that contains it)."""
-from .. import dt_msp
+from .. import dt_msp, lemmas
 
 ASSUMPTIONS = ["that two occurrences of one k-mer see the same minimizer follows from C07's clauses (minimal p-mer, ties to the larger position) and is not re-derived here"]
 
@@ -18,5 +18,6 @@ def run(F, rep):
     rep.run(dt_msp.capacity_guard, F, rep, "C08.2")
     rep.run(dt_msp.slice_bounds_tables, F, rep, "C08.3")
     rep.run(dt_msp.from_slice_table, F, rep, "C08.5")
+    rep.run(lemmas.lmer_lemmas, F, rep, which={"from_slice"})
     rep.run(dt_msp.minpos_order_tables, F, rep, "C08.6")
     rep.run(dt_msp.scan_tables, F, rep, "C08.6")
